@@ -138,7 +138,9 @@ def one_load(api, tid, data, flag0, kind, fail_at=None, open_fails=None, pipe=Fa
     import rv.errors
     log = []
     st = {}
-    rv.errors.RAISE_CONTROLLER_VALUE_ERRORS = flag0
+    raw0 = flag0                 # the object the session keeps in the setting (any truthy / falsy value works as a setting)
+    flag0 = bool(flag0)
+    rv.errors.RAISE_CONTROLLER_VALUE_ERRORS = raw0
     saved = install_nested_observers(log)
     orig_open = pathlib.Path.open
     try:
@@ -173,7 +175,7 @@ def one_load(api, tid, data, flag0, kind, fail_at=None, open_fails=None, pipe=Fa
         finally:
             signal.setitimer(signal.ITIMER_REAL, 0)
             signal.signal(signal.SIGALRM, old_handler)
-        end["flag"] = bool(rv.errors.RAISE_CONTROLLER_VALUE_ERRORS)
+        end["flag"] = bool(rv.errors.RAISE_CONTROLLER_VALUE_ERRORS)         # (strict or lenient: the truth value is what matters)
         end["closed"] = bool(st["stream"].closed) if "stream" in st else True
         log.append(end)
     finally:
@@ -265,6 +267,12 @@ def run(ctx):
             for kind in ("stream", "path"):
                 add(name, data, flag0, kind)
                 add(name, data, flag0, kind, warn_error=True)
+    # the setting held as a truthy / falsy value that is not a bool (e.g. int(os.environ[...])): restored as it was
+    for name, data in (datas[:4] + oor[:2]) if q else (datas + oor):
+        for raw0 in (1, 0, 2, "strict", ""):
+            for kind in ("stream", "path"):
+                add(name, data, raw0, kind)
+            add(name, data[:max(8, len(data) // 2)], raw0, "stream")          # ... also when the load fails
     for name, data in datas[:: (6 if q else 1)]:
         for flag0 in (True, False):
             add(name, data, flag0, "path", pipe=True)        # a path that names a pipe
